@@ -329,6 +329,133 @@ theorem file_rt_incr (order : Option (List Nat))
     (fun rest => by rw [e2]; exact setSize_readsBack d2.trailer d2.maxId (by omega) htr2 _)
     (hobj d1 hwf1 hmax1 hobjs1) (hobj d2 hwf2 hmax2 hobjs2) hv1 hv2
 
+/-! ### `file_rt` with real numbers: what comes back is the normal form -/
+
+theorem normD_get (es : List (Bytes × Obj)) (k : Bytes) : Dict.get (normD es) k = (Dict.get es k).map norm := by
+  induction es with
+  | nil => simp [normD, Dict.get]
+  | cons p rest ih =>
+    obtain ⟨q, w⟩ := p
+    by_cases h : q = k <;> simp [normD, Dict.get, h, ih]
+
+theorem asName_norm (v : Obj) : (norm v).asName = v.asName := by
+  cases v with
+  | real t =>
+    simp only [norm, normReal]
+    split
+    · rfl
+    · split <;> rfl
+  | _ => simp [norm, Obj.asName]
+
+/-- what the reader returns for a written object: reals in normal form (an integral real is read
+as an integer — `norm`), inside a stream's dictionary too -/
+def nfObj : Obj → Obj
+  | .stream es c => .stream (normD es) c
+  | o => norm o
+
+/-- objects covered by `file_rt_table_norm`: every direct object within the nesting limit, and
+streams with such a dictionary carrying the direct `Length` of the content -/
+def ObjOKN : Obj → Prop
+  | .stream es c => WFObj (.dict es) ∧ height (.dict es) ≤ MAX_NESTING ∧ Dict.get es LENGTH = some (.int c.length)
+  | o => WFObj o ∧ height o ≤ MAX_NESTING
+
+theorem nfObj_notObjStm (o : Obj) (h : NotObjStm o) : NotObjStm (nfObj o) := by
+  cases o with
+  | stream es c =>
+    show Dict.getTypeIs (normD es) OBJSTM = false
+    have h' : Dict.getTypeIs es OBJSTM = false := h
+    unfold Dict.getTypeIs at h' ⊢
+    rw [normD_get]
+    cases hg : Dict.get es TYPE with
+    | none => simp
+    | some v => simpa [hg, asName_norm] using h'
+  | real t =>
+    simp only [nfObj, norm, normReal]
+    split
+    · trivial
+    · split <;> trivial
+  | _ => trivial
+
+theorem indirect_nf (n g : Nat) (o : Obj) (hn : n ≤ U32_MAX) (hg : g ≤ U16_MAX) (h : ObjOKN o)
+    (len : ObjId → Option Int) (base : Nat) (rest : Bytes) :
+    pIndirect len none base (writeIndirect n g o ++ rest) = some ((n, g), .plain (nfObj o)) := by
+  cases o with
+  | stream es c =>
+    obtain ⟨h1, h2, h4⟩ := h
+    have hget : Dict.get (normD es) LENGTH = some (.int c.length) := by rw [normD_get, h4]; rfl
+    have hl : ObjRt.lengthOf len (normD es) = some (Int.ofNat c.length) := by
+      simp [ObjRt.lengthOf, hget]
+    rw [indirect_stream_rt len none base n g es c rest hn hg (Or.inl rfl) h1 h2 hl, set_same _ LENGTH _ hget]
+    rfl
+  | null => exact indirect_rt len none base n g _ rest hn hg (Or.inl rfl) h.1 h.2
+  | bool b => exact indirect_rt len none base n g _ rest hn hg (Or.inl rfl) h.1 h.2
+  | int i => exact indirect_rt len none base n g _ rest hn hg (Or.inl rfl) h.1 h.2
+  | real t => exact indirect_rt len none base n g _ rest hn hg (Or.inl rfl) h.1 h.2
+  | name nm => exact indirect_rt len none base n g _ rest hn hg (Or.inl rfl) h.1 h.2
+  | str s f => exact indirect_rt len none base n g _ rest hn hg (Or.inl rfl) h.1 h.2
+  | arr items => exact indirect_rt len none base n g _ rest hn hg (Or.inl rfl) h.1 h.2
+  | dict es => exact indirect_rt len none base n g _ rest hn hg (Or.inl rfl) h.1 h.2
+  | ref a b => exact indirect_rt len none base n g _ rest hn hg (Or.inl rfl) h.1 h.2
+
+/-- **`file_rt`, classic table, real numbers included (C01).** For EVERY well-formed document
+within the nesting limit — no restriction on real numbers — `load (save d)` succeeds and returns
+the same version and binary mark, the trailer in normal form (`normD`), and for every object id
+the NORMAL FORM of the object `d` holds: identical except that a real whose `Display` text is
+integral (e.g. `3`) is read back as the integer the text denotes — the only place where lopdf's
+own writer/reader pair is not the identity. No parsing hypothesis is left. -/
+theorem file_rt_table_norm (order : Option (List Nat)) (d : SDoc) (out : Bytes) (d' : SDoc)
+    (hk : d.xrefKind = .table) (h : saveFrom [] d = some (out, d')) (hlen : out.length < 4294967296)
+    (hmax : d.maxId + 1 ≤ 4294967295) (hwf : DocWF d)
+    (hobjs : ∀ p ∈ d.objects, ObjOKN p.2)
+    (htr : WFObj (.dict d.trailer) ∧ height (.dict d.trailer) ≤ MAX_NESTING)
+    (hv1 : ∀ b ∈ d.version, notEol b = true) (hv2 : validUtf8 d.version = true)
+    (hprev : d.trailer.get PREV = none) (henc : d.trailer.has ENCRYPT = false) :
+    ∃ L : Loaded, loadDocOrd order out = .ok L ∧ L.version = d.version ∧ L.binaryMark = d.binaryMark ∧
+      L.trailer = normD d'.trailer ∧ L.xrefStart = (bodyOf [] d).length ∧ L.maxId ≤ d.maxId ∧
+      ∀ id, L.objects.get id = (d.objects.get id).map nfObj := by
+  obtain ⟨_, htr'⟩ := saveFrom_table_eq [] d out d' hk h
+  obtain ⟨t1, t2⟩ := htr
+  have k1 : ¬ SIZE = PREV := by decide
+  have k2 : ¬ SIZE = ENCRYPT := by decide
+  have hi : -(I64_MAX : Int) - 1 ≤ ((d.maxId : Int) + 1) ∧ ((d.maxId : Int) + 1) ≤ I64_MAX := by
+    simp [I64_MAX]; omega
+  have hD : ∀ rest, DictReadsBackN d'.trailer (normD d'.trailer) rest := by
+    intro rest
+    unfold DictReadsBackN
+    rw [htr']
+    apply pDictionary_rt
+    · simp only [WFObj, WF] at t1 ⊢
+      exact ⟨Dict_nodup_set d.trailer SIZE _ t1.1, WFD_set_int _ _ _ hi t1.2⟩
+    · simp only [height] at t2 ⊢
+      have := heightD_set_int d.trailer SIZE ((d.maxId : Int) + 1)
+      omega
+  apply load_of_save_table_withN _ (loadDocOrd_arr_nil order) nfObj nfObj_notObjStm d out d' (normD d'.trailer)
+    hk h hlen hmax hwf (hD _) ?_ ?_ hv1 hv2 ?_ ?_
+  · rw [normD_get, htr', Dict.get_set_same]; simp [norm]
+  · intro p hp len base rest
+    obtain ⟨hr1, hr2⟩ := hwf.range p hp
+    exact indirect_nf _ _ _ (by simp [U32_MAX]; omega) (by have := hwf.gens p hp; simp [U16_MAX]; omega)
+      (hobjs p hp) len base rest
+  · rw [normD_get, htr', Dict_get_set]; simp only [k1, if_false]; rw [hprev]; rfl
+  · rw [Dict_has_eq, normD_get, htr', Dict_get_set]; simp only [k2, if_false]
+    have : (d.trailer.get ENCRYPT).isSome = false := henc
+    cases hg : d.trailer.get ENCRYPT with
+    | none => rfl
+    | some v => rw [hg] at this; simp at this
+
+/-- a real with an integral text comes back as an integer, a decimal one as itself -/
+example : nfObj (.arr [.real [51], .real [51, 46, 53]]) = .arr [.int 3, .real [51, 46, 53]] := by
+  rfl
+
+/-- non-vacuity of `ObjOKN` on an object with a real number -/
+example : ObjOKN (.arr [.real [51, 46, 53], .int 2]) := by
+  refine ⟨?_, ?_⟩
+  · simp only [WFObj, WF, WFL, and_true]
+    refine ⟨Or.inl ⟨⟨false, [51], [53], rfl, by simp, ?_, ?_⟩⟩, by simp [I64_MAX]⟩
+    · intro b hb; simp at hb; subst hb; decide
+    · intro b hb; simp at hb; subst hb; decide
+  · simp [height, heightL, MAX_NESTING]
+
 /-! ### non-vacuity -/
 
 def exDoc : SDoc := SDoc.mk [49, 46, 53] [187, 173, 192, 222] [] [] 0 .table
